@@ -29,7 +29,7 @@ ASSUMPTIONS = [
     "which the connection closed is counted as precondition-not-met, not judged)",
     "client frame spacing <= server emission spacing (queue-model soundness, DESIGN 3/C05 S)",
 ]
-BUDGET_S = {"quick": 75, "thorough": 800}
+BUDGET_S = {"quick": 55, "thorough": 800}
 
 TABLE_MTUS = [512, 513, 600, 1095, 1096, 1100, 1400, 1499, 1500]
 APIS = [("c", 1), ("c", 0), ("s", 1), ("s", 0)]
